@@ -353,6 +353,16 @@ func vectorTuples(r *rand.Rand, w int, isF bool, arity int, budget int) [][]v128
 	set := laneSet(w, isF)
 	n := 128 / w
 	var out [][]v128
+	if arity == 1 && w == 16 && hx.Thorough() {
+		// every 16-bit lane value
+		for base := 0; base < 65536; base += n {
+			ls := make([]uint64, n)
+			for j := range ls {
+				ls[j] = uint64((base + j) & 0xffff)
+			}
+			out = append(out, []v128{packLanes(w, ls)})
+		}
+	}
 	if arity == 1 {
 		for i := 0; i < len(set); i += n {
 			ls := make([]uint64, n)
@@ -944,7 +954,7 @@ func main() {
 	sort.SliceStable(ops, func(i, j int) bool { return ops[i].name < ops[j].name })
 	budget := 60
 	if hx.Thorough() {
-		budget = 1500
+		budget = 5000
 	}
 	n := 0
 	for _, o := range ops {
